@@ -274,6 +274,7 @@ func verifRefReaches(sev checks.Severity, rank int) bool {
 func VerifHarness_Exit() {
 	verifEnv.ci = verifParam("cmd") == 1
 	verifEnv.failOn = verifSeverityFlag("failOn", verifParam("fo"))
+	verifEnv.minSeverity = verifFlag{} // (several native replays share one process: leave nothing behind)
 	if !verifEnv.ci {
 		verifEnv.minSeverity = verifSeverityFlag("minSeverity", verifParam("ms"))
 	}
